@@ -861,12 +861,30 @@ func parseModel(out string) map[string]string {
 func SolveAll(obls []*Obligation, timeoutS int, workers int, keepScripts bool) {
 	var wg sync.WaitGroup
 	ch := make(chan *Obligation)
+	// Once several instances (parts, cases, returns) of one clause of one function are undecided or refuted, the
+	// remaining instances of that clause are not worth a solver timeout each: the clause is reported anyway.
+	var mu sync.Mutex
+	failed := map[string]int{}
+	group := func(ob *Obligation) string { return ob.Fn + "|" + partCaseRe.ReplaceAllString(stableName(ob.Name), "") }
 	for i := 0; i < workers; i++ {
 		wg.Add(1)
 		go func() {
 			defer wg.Done()
 			for ob := range ch {
+				g := group(ob)
+				mu.Lock()
+				n := failed[g]
+				mu.Unlock()
+				if n >= 6 && !ob.Cover {
+					ob.Result = &SolveResult{Status: "unknown", Output: "not attempted: six other instances of this clause are already undecided or refuted"}
+					continue
+				}
 				ob.Result = ob.Solve(timeoutS, keepScripts)
+				if ob.Result.Status != "unsat" && !ob.Cover {
+					mu.Lock()
+					failed[g]++
+					mu.Unlock()
+				}
 			}
 		}()
 	}
@@ -876,5 +894,7 @@ func SolveAll(obls []*Obligation, timeoutS int, workers int, keepScripts bool) {
 	close(ch)
 	wg.Wait()
 }
+
+var partCaseRe = regexp.MustCompile(`\.(part|case)[0-9]+`)
 
 func contextBackground() context.Context { return context.Background() }
